@@ -25,7 +25,7 @@ type CloseCase struct {
 	Cycles int       `json:"cycles,omitempty"`  // cycles: number of open/close repetitions
 }
 
-const c17Rule = "five generated situations on stores with 1 ms GC and sync intervals (both collectors and the flusher really run): (parked) the cooperative scheduler adopts the store's own background goroutines at their named points, holds one of them at a drawn point inside a GC cycle or a flush, and then issues Close from the foreground task (a third of these cases prepare a low-use primary file so that the cycle in progress is one that relocates records); (timers) free-running activity, a drawn pause, Close; (failopen) OpenStore that must fail (other index/primary file size, the same together with another bit size so that the failure happens inside the index translation, another bit size with an index file missing, garbage or empty header files, unsupported primary type) on an existing store; (cycles) 1-30 open/activity/close repetitions; (faultclose) an environment fault (stray file at the next primary file name, stray directory at the next index file name or at the temporary name of the bucket snapshot) makes the flush or the snapshot inside Close fail - Close may return the error but must still stop everything and release every descriptor. " +
+const c17Rule = "five generated situations on stores with 1 ms GC and sync intervals (both collectors and the flusher really run): (parked) the cooperative scheduler adopts the store's own background goroutines at their named points, holds one of them at a drawn point inside a GC cycle or a flush, and then issues Close from the foreground task (a third of these cases prepare a low-use primary file so that the cycle in progress is one that relocates records); (timers) free-running activity, a drawn pause, Close; (failopen) OpenStore that must fail (other index/primary file size, the same together with another bit size so that the failure happens inside the index translation, another bit size with an index file missing, garbage or empty header files, unsupported primary type, a store in the legacy formats whose index or primary file ends in a partial size prefix) on an existing store; (cycles) 1-30 open/activity/close repetitions; (faultclose) an environment fault (stray file at the next primary file name, stray directory at the next index file name or at the temporary name of the bucket snapshot) makes the flush or the snapshot inside Close fail - Close may return the error but must still stop everything and release every descriptor. " +
 	"oracle = census right after Close (or the failed open) returns: no goroutine with a frame of the module (polled up to 2 s so that goroutines that already signalled completion can finish returning; a goroutine parked at a named point never finishes), no descriptor in /proc/self/fd pointing into the store directory, directory listing with sizes and content hashes unchanged across a pause and after every held goroutine is released, second Close returns nil, a reopen works; counts after N cycles equal the baseline. " +
 	"non-trivial = Close issued while a GC cycle or flush was provably in progress (a background goroutine held at a named point, or point counters advanced within the last pause), an open that did fail, or a Close that did return the injected error; distinct = distinct canonical JSON of the case"
 
@@ -101,7 +101,7 @@ func genClose(t *rapid.T) CloseCase {
 		c.WaitUS = rapid.IntRange(0, 4000).Draw(t, "wait")
 	case "failopen":
 		c.Fail = []string{"index-size", "primary-size", "garbage-index-header", "empty-index-header", "garbage-primary-header", "empty-primary-header", "primary-type",
-			"index-size+bits", "primary-size+bits", "bits+missing-index-file"}[rapid.IntRange(0, 9).Draw(t, "fail")]
+			"index-size+bits", "primary-size+bits", "bits+missing-index-file", "legacy-index-torn-tail", "legacy-primary-torn-tail"}[rapid.IntRange(0, 11).Draw(t, "fail")]
 	case "cycles":
 		c.Cycles = rapid.IntRange(1, 30).Draw(t, "cycles")
 	case "faultclose":
@@ -348,6 +348,44 @@ func runClose(c CloseCase) (st closeStats, v *Violation) {
 		}
 		return st, nil
 	case "failopen":
+		if strings.HasPrefix(c.Fail, "legacy-") {
+			// A store in the legacy single-file formats (written by the legacy
+			// encoder of C10 from this case's operations) whose index or primary
+			// ends in a partial size prefix, as a crash of the old version
+			// leaves it: if the converting open fails, it must release everything.
+			lc := LegacyCase{Bits: c.Cfg.Bits, IdxSize: c.Cfg.IdxSize, PrimSize: c.Cfg.PrimSize, Keys: c.Keys, FreeMode: []int{0, 1, 2}}
+			for _, op := range c.Ops {
+				switch op.K {
+				case opPut:
+					lc.Hist = append(lc.Hist, LOp{K: "put", Key: op.Key, VLen: op.VLen})
+				case opRemove:
+					lc.Hist = append(lc.Hist, LOp{K: "rm", Key: op.Key})
+				case opFlush:
+					lc.Hist = append(lc.Hist, LOp{K: "flush"})
+				}
+			}
+			writeLegacy(dir, lc)
+			victim := idxBase
+			if c.Fail == "legacy-primary-torn-tail" {
+				victim = dataBase
+			}
+			if f, err := os.OpenFile(filepath.Join(dir, victim), os.O_APPEND|os.O_WRONLY, 0o644); err == nil {
+				f.Write([]byte{0x07, 0x00})
+				f.Close()
+			}
+			cfg := lc.cfg()
+			s2, err := store.OpenStore(bg, cfg.Primary, filepath.Join(dir, dataBase), filepath.Join(dir, idxBase), false, storeOptsBusy(cfg)...)
+			if err == nil {
+				s2.Close()
+				return st, nil // the conversion coped with it: not a failing open
+			}
+			st.inProgress = true
+			if v := census(dir, baseline, "failed-open"); v != nil {
+				v.Signature += c.Fail
+				return st, v
+			}
+			return st, stable("failed-open")
+		}
 		s, err := openStore(dir, c.Cfg)
 		if err != nil {
 			return st, viol("open-error|open|"+errClass(err), 0, "OpenStore: %v", err)
